@@ -18,7 +18,7 @@ def run(env):
     rs = [json.loads(l) for l in open(out) if l.startswith("{")]
     os.unlink(out)
     return rs
-rs = run({"VERIF_MODE": "gen", "VERIF_HARNESS": PROPS[prop]["harness"], "VERIF_PROP": prop, "VERIF_TIER": tier,
+rs = run({"VERIF_MODE": "gen", "VERIF_HARNESS": PROPS[prop]["harness"], "VERIF_ALT_HARNESS": PROPS[prop].get("alt_harness", ""), "VERIF_PROP": prop, "VERIF_TIER": tier,
           "VERIF_SEED_START": str(start), "VERIF_SEED_COUNT": str(n), "VERIF_KEEP_PLANS": "1"})
 rs = [r for r in rs if r.get("plan")]
 def one(ir):
